@@ -31,6 +31,8 @@ pub enum Op {
     InjectRst { src: Ip, sport: u16, dst: Ip, dport: u16 },
     Drain,
     Netstat,
+    /// n rounds of egress_all + deliver: time passing on an otherwise idle wire
+    PumpN { n: u32 },
 }
 
 impl Op {
@@ -61,6 +63,7 @@ impl Op {
             }
             Op::Drain => "OP ctl drain".into(),
             Op::Netstat => "OP ctl netstat".into(),
+            Op::PumpN { n } => format!("OP wire pumpn {n}"),
         }
     }
 
@@ -111,6 +114,7 @@ impl Op {
             },
             "drain" => Op::Drain,
             "netstat" => Op::Netstat,
+            "pumpn" => Op::PumpN { n: num(3)? },
             _ => return None,
         })
     }
@@ -664,6 +668,19 @@ impl World {
                 }
                 join(&parts, " ")
             }
+            Op::PumpN { n } => {
+                let mut seen = Vec::new();
+                let mut out: Vec<Packet> = Vec::new();
+                for _ in 0..*n {
+                    out.clear();
+                    self.guard.egress_all(&mut out);
+                    for p in out.drain(..) {
+                        seen.push(pkt_tok(&p));
+                        self.guard.deliver(p);
+                    }
+                }
+                format!("ok wire={}", join(&seen, ","))
+            }
             Op::Netstat => {
                 let mut parts = Vec::new();
                 for (i, a) in self.addrs.iter().enumerate() {
@@ -756,6 +773,7 @@ impl Stats {
             Op::InjectRst { .. } => "injectrst",
             Op::Drain => "drain",
             Op::Netstat => "netstat",
+            Op::PumpN { .. } => "pumpn",
         };
         *self.ops.entry(name).or_insert(0) += 1;
         let head: String = obs.split_whitespace().take(2).collect::<Vec<_>>().join("_");
@@ -864,6 +882,7 @@ pub fn gen_table_case(rng: &mut Rng, st: &mut Stats, max_ops: usize, big_cycle: 
             2,
             if lsn_slots.is_empty() { 0 } else { zombie_w },
             if lsn_slots.is_empty() { 0 } else { zombie_w / 2 },
+            zombie_w / 2,
             zombie_w / 2,
         ];
         match rng.weighted(&ws) {
@@ -1026,6 +1045,53 @@ pub fn gen_table_case(rng: &mut Rng, st: &mut Stats, max_ops: usize, big_cycle: 
                             out.step(&mut w, st, Op::Netstat);
                         }
                     }
+                }
+            }
+            13 => {
+                // a half-open child whose SYN-ACKs are never answered: it retransmits, times out
+                // and must be gone; then the 4-tuple, the listener's port and the table are used again
+                let h = rng.below(nh);
+                let port = *rng.pick(&[7200u16, 7201, 80, 5000]);
+                let lip = if rng.chance(1, 2) { Ip { v6: addrs[h][0].v6, n: 0 } } else { addrs[h][0] };
+                let ls = next_slot;
+                next_slot += 1;
+                let o = out.step(&mut w, st, Op::TListen { h, s: ls, ip: lip, port });
+                if o.starts_with("ok") {
+                    let dst = addrs[h][0];
+                    let src = Ip { v6: dst.v6, n: 90 };
+                    mid_sport += 1;
+                    let sp = mid_sport;
+                    out.step(&mut w, st, Op::InjectSyn { src, sport: sp, dst, dport: port });
+                    if rng.chance(1, 2) {
+                        mid_sport += 1;
+                        out.step(&mut w, st, Op::InjectSyn { src, sport: mid_sport, dst, dport: port });
+                    }
+                    let n = *rng.pick(&[16u32, 17, 18, 19, 20, 24]);
+                    out.step(&mut w, st, Op::PumpN { n });
+                    out.step(&mut w, st, Op::Netstat);
+                    if rng.chance(1, 2) {
+                        // a new SYN on the very same 4-tuple
+                        let o2 = out.step(&mut w, st, Op::InjectSyn { src, sport: sp, dst, dport: port });
+                        if o2.contains("/SA/") {
+                            out.step(&mut w, st, Op::InjectRst { src, sport: sp, dst, dport: port });
+                        }
+                    }
+                    out.step(&mut w, st, Op::Close { h, s: ls });
+                    let (s2, s3) = (next_slot, next_slot + 1);
+                    next_slot += 2;
+                    match rng.below(3) {
+                        0 => {
+                            out.step(&mut w, st, Op::TListen { h, s: s2, ip: lip, port });
+                        }
+                        1 => {
+                            out.step(&mut w, st, Op::TListen { h, s: s2, ip: dst, port });
+                        }
+                        _ => {
+                            out.step(&mut w, st, Op::TListen { h, s: s2, ip: Ip { v6: dst.v6, n: 0 }, port });
+                            out.step(&mut w, st, Op::UBind { h, s: s3, ip: dst, port });
+                        }
+                    }
+                    out.step(&mut w, st, Op::Netstat);
                 }
             }
             _ => {
